@@ -67,6 +67,7 @@ class Obligation:
         self.where = where
         self.clause = clause
         self.nfacts = None
+        self.stamp = len(ctx().facts)  # facts emitted later concern later program points only
 
 
 class SpecCtx:
@@ -97,10 +98,21 @@ class Engine:
         self.assumptions_used = []
         self.covers = []  # (name, pc) reachability checks
         self.hooks_fired = set()
+        self.cuts_fired = set()
 
     # ------------------------------------------------------------------
     # helpers
     # ------------------------------------------------------------------
+    def stmt_ordinal(self, s, cls):
+        fi = self.func
+        key = "_ord_" + cls.__name__
+        lst = getattr(fi, key, None)
+        if lst is None:
+            lst = [n for n in ast.walk(fi.node) if isinstance(n, cls)]
+            lst.sort(key=lambda n: (n.lineno, n.col_offset))
+            setattr(fi, key, lst)
+        return lst.index(s) if s in lst else -1
+
     def assigned_names(self, fi):
         s = getattr(fi, "_assigned", None)
         if s is None:
@@ -122,7 +134,9 @@ class Engine:
         self.exit_stack[-1].append(e)
 
     def type_spec(self, path):
-        p = path.split("@")[0]
+        p = path.split("@")[0].split("~!")[0]
+        if p.endswith("!a"):
+            p = p[:-2]
         return ctx().types.get(p)
 
     def make_typed(self, name, path):
@@ -164,8 +178,13 @@ class Engine:
             return z3.IntVal(s)
         if z3.is_expr(s):
             return s
-        # expression string evaluated in the entry state
-        v = self.ev(ast.parse(s, mode="eval").body, self.entry_state)
+        # expression string evaluated in the entry state (unknown names are an error, never a silent fresh symbol)
+        old = self.spec
+        self.spec = SpecCtx(pre=self.entry_state, polarity=0, lets={}, contract=self.cur_contract)
+        try:
+            v = self.ev(ast.parse(s, mode="eval").body, self.entry_state.copy())
+        finally:
+            self.spec = old
         return self.as_int(v)
 
     def as_int(self, v):
@@ -191,7 +210,7 @@ class Engine:
     def version(self, st, path):
         best = 0
         for k, v in st.env.items():
-            if k.startswith("#ver:") and path.startswith(k[5:]) and len(path) > len(k) - 5:
+            if k.startswith("#ver:") and path.startswith(k[5:]) and len(path) > len(k) - 5 and path[len(k) - 5] in ".[":
                 best = max(best, v)
         return best
 
@@ -272,7 +291,28 @@ class Engine:
                 for k, node in h.items():
                     st.env[k] = self.ev_spec(node, st, pre=self.entry_state)
                 self.hooks_fired.add(ast.unparse(s))
+        if c is not None and c.cuts and self.inline_depth == 0 and st is not None and self.func is not None and self.func.qual == c.qual:
+            txt = None
+            for k, cut in enumerate(c.cuts):
+                if k in self.cuts_fired:
+                    continue
+                if txt is None:
+                    txt = " ".join(ast.unparse(s).split())
+                if txt.startswith(cut["key"]):
+                    self.cuts_fired.add(k)
+                    self.apply_cut(k, cut, st, s)
         return st
+
+    def apply_cut(self, k, cut, st, node):
+        for cl in cut["clauses"]:
+            g = self.eval_clause(cl, st, pre=self.entry_state, polarity=1)
+            self.oblige("cut#%d[%s]::%s" % (k, cut["var"], cl.name), st, g, "cut", cl.top, cut["props"], node, cl)
+        nm = ctx().fresh("cut_" + cut["var"])
+        nv = self.build_from_spec(cut["spec"], nm, st)
+        st.env[cut["var"]] = nv
+        for cl in cut["clauses"]:
+            g = self.eval_clause(cl, st, pre=self.entry_state, polarity=-1)
+            st.pc = z3.And(st.pc, g)
 
     def exec_stmt0(self, s, st):
         m = getattr(self, "st_" + type(s).__name__, None)
@@ -304,7 +344,9 @@ class Engine:
         t = self.truth(self.ev(s.test, st))
         bad = st.copy()
         bad.pc = z3.And(st.pc, z3.Not(t))
-        self.push_exit(Exit("raise", bad, exc="AssertionError", where=self.where(s)))
+        ex = Exit("raise", bad, exc="AssertionError", where=self.where(s))
+        ex.tag = "assert#%d" % self.stmt_ordinal(s, ast.Assert)
+        self.push_exit(ex)
         st.pc = z3.And(st.pc, t)
         return st
 
@@ -360,7 +402,9 @@ class Engine:
                 exc = e.id
             elif isinstance(e, ast.Attribute):
                 exc = e.attr
-        self.push_exit(Exit("raise", st, exc=exc, val=val, where=self.where(s)))
+        ex = Exit("raise", st, exc=exc, val=val, where=self.where(s))
+        ex.tag = "raise#%d" % self.stmt_ordinal(s, ast.Raise)
+        self.push_exit(ex)
         return None
 
     def st_If(self, s, st):
@@ -518,16 +562,34 @@ class Engine:
         # 2. havoc
         locals_mod, heap_mod, prefix_mod = frames.loop_writes(self, s, st)
         head = st.copy()
+        kept_shapes = {}
         for nm in list(locals_mod) + list(extra_mod) + list(extra_names):
             if nm in head.env or True:
                 old = head.env.get(nm)
                 nv = Val.fresh(nm)
+                if self.type_spec(nm) is not None and self.inline_depth == 0:
+                    tv = self.make_typed(ctx().fresh(nm), nm)
+                    if tv is not None:
+                        head.env[nm] = tv
+                        continue
                 # keep sort information for numeric counters
                 if old is not None and old.num is not None and old.arr is None and old.boo is None:
                     sort = "int" if old.num.is_int() else "real"
                     nv = Val.of_num(n_fresh(ctx().fresh(nm), sort, old.num.t is not None))
                 elif old is not None and old.boo is not None and old.num is None and old.none is None:
                     nv = Val.of_bool(z3.Bool(ctx().fresh(nm)))
+                elif old is not None and old.arr is not None and old.arr.ndim in (1, 2):
+                    # arrays stay arrays: fresh contents and fresh leading dimension, trailing dimension kept
+                    # (kept dimension is re-checked at every back edge: obligation shape-preserved)
+                    oa = old.arr
+                    d0 = z3.Int(ctx().fresh(nm + "!rows"))
+                    ctx().add_fact(d0 >= 0)
+                    shape = (d0,) + tuple(oa.shape[1:])
+                    na = arr_fresh(ctx().fresh(nm), oa.ndim, shape, oa.dtype)
+                    nv = Val(arr=na)
+                    if old.none is not None:
+                        nv.none = z3.Bool(ctx().fresh(nm + "!none"))
+                    kept_shapes[nm] = tuple(oa.shape[1:])
                 head.env[nm] = nv
         for p in heap_mod:
             self.havoc_path(head, p)
@@ -575,6 +637,17 @@ class Engine:
                 continue
             if head_fact:
                 head_fact(b)
+            for nm, dims in kept_shapes.items():
+                bv = b.env.get(nm)
+                ba = bv.arr if bv is not None else None
+                if ba is None or ba.ndim != len(dims) + 1:
+                    ok = bv.none_term() if (bv is not None and bv.none is not None and ba is None) else z3.BoolVal(False)
+                else:
+                    ok = z3.And(*[x == y for x, y in zip(ba.shape[1:], dims)]) if dims else z3.BoolVal(True)
+                    if bv.none is not None:
+                        ok = z3.Or(bv.none, ok)
+                if not z3.is_true(z3.simplify(ok)):
+                    self.oblige("%s::shape-preserved::%s" % (tag, nm), b, ok, "inv-preserved", False, spec.props if spec else (), s)
             if spec:
                 for inv in spec.invariants:
                     gl = self.eval_clause(inv, b, pre=self.entry_state, polarity=1)
